@@ -52,7 +52,7 @@ try:
     pkgs = sorted({"./" + os.path.dirname(p) for p in patched})
     tests = {}
     for pk in pkgs:
-        skip = "TestErrMissingSignatureRecreateDB|Seed|TestC[0-9][0-9]|C17$|TestReadLoopEveryChunking|TestIsWritable|TestServiceNewAddresses|TestPexAddPeers"
+        skip = "TestErrMissingSignatureRecreateDB|Seed|TestC[0-9][0-9]|C17$|TestReadLoopEveryChunking|TestCrashDuringSave|TestIsWritable|TestServiceNewAddresses|TestPexAddPeers"
         rc, o = sh("go test -count=1 -skip '%s' %s 2>&1 | tail -15" % (skip, pk), timeout=3000)
         tests[pk] = "ok" if ("FAIL" not in o) else o[-600:]
     res["existing_tests_with_change"] = tests
